@@ -213,7 +213,58 @@ def run(ctx):
     else:
         for case, _w, nontrivial in impls:
             res.case("e2e-faulty", case, nontrivial)
+    _report_storm(ctx, res)
     return res
+
+
+def _report_storm(ctx, res):
+    """SNMPv3: "whatever the agent answers" includes Reports.  An engine that answers every request of
+    a walk — from the first one, or from the k-th on — with the same usmStats report (the datagram is
+    replayable by anyone on the path) must make the walk END with an exception after a bounded number
+    of datagrams: a re-discovery and one retransmission at most (seeded C03-43: unbounded retry)."""
+    from harness import berlib as BL
+
+    oid = [1, 3, 6, 1, 2, 1, 2, 2, 1]
+    db = [(tuple(oid + [c, r]), ["int", c * 10 + r]) for c in (1, 2) for r in (1, 2, 3)]
+    for level in ("auth", "authpriv", "noauth"):
+        for stuck in ("notInTimeWindow", "unknownEngineID", "wrongDigest"):
+            for kind in ("walk", "bulkwalk", "table"):
+                for after in (0, 2):
+                    agent = RA.Agent(db=db, v3=RA.V3Config(), budget=60)
+                    client = W.make_client(agent, "v3", level)
+                    state = {"seen": 0}
+
+                    def hook(a, msg, out, stuck=stuck, state=state, after=after):
+                        if msg.get("engine_id") == b"":
+                            return None  # discovery is answered normally
+                        state["seen"] += 1
+                        if state["seen"] <= after:
+                            return None
+                        u = a.v3.users.get(msg["user"]) or {}
+                        return a._report({**msg, "flags": msg["flags"] | 4}, stuck, user=msg["user"], auth_user=msg["user"] if u.get("auth") else None)
+
+                    agent.hook_v3 = hook
+
+                    async def go(kind=kind, client=client):
+                        out = []
+                        if kind == "walk":
+                            async for vb in client.walk(RA.OID(oid)):
+                                out.append(vb)
+                        elif kind == "bulkwalk":
+                            async for vb in client.bulkwalk([RA.OID(oid + [1]), RA.OID(oid + [2])], bulk_size=2):
+                                out.append(vb)
+                        else:
+                            out = await client.table(RA.OID(oid))
+                        return len(out)
+
+                    r = BL.guarded(lambda go=go: W.run(go()), 5.0)
+                    n = len(agent.raw_log)
+                    res.evaluations += 1
+                    res.count(f"report-storm:{kind}:{stuck}")
+                    case = {"suite": "report-storm", "level": level, "report": stuck, "op": kind, "answered_first": after, "datagrams": n}
+                    if r[0] != "error" or r[1] in ("AgentStop", "RecursionError") or n > after + 8:
+                        res.violate("e2e-report-storm", case, f"an exception after at most {after + 8} datagrams", [list(r)[:2], n],
+                                    "an engine repeating one report keeps the walk sending", {"kind": "report-storm", "report": stuck})
 
 
 def _table_of(table):
